@@ -353,6 +353,13 @@ func genFacts() {
 		strings.Contains(ins, "for i, v := range values { if i == c.KeyCol { continue } colName := c.ColumnNameByIndex[i] new.ColumnValues[colName] = &v1proto.ColumnValue{Value: toSQLiteValue(v)}") &&
 		vc.text(vc.fn("laterOf").Body) == "{ if a.After(b) { return a } return b }")
 
+	// ---- the uniqueness lookup: getRow reports a failed lookup as an error (never as "absent"), Insert rejects a NULL key before it
+	gr := vc.text(vc.fn("getRow").Body)
+	f["getRowReturnsLookupError"] = leanBool(strings.HasPrefix(gr, "{ var crdtValue crdt.Value ok, err := c.Tree.Root.Get(ctx, key, &crdtValue) if err != nil { return false, err } if ok {") &&
+		strings.HasSuffix(gr, "return ok, nil }") &&
+		strings.Contains(ins, "ok, err := getRow(ctx, c, NewKey(key), &old, &ot) if err != nil { return 0, fmt.Errorf(\"get: %w\", err) } if ok && ("))
+	f["insertRejectsNullKey"] = leanBool(strings.Contains(ins, "key = values[c.KeyCol] if key == nil { return 0, ErrS3DBConstraintNotNull }") &&
+		strings.Index(ins, "if key == nil { return 0, ErrS3DBConstraintNotNull }") < strings.Index(ins, "getRow("))
 	// ---- loadRootFromAny: only a NoSuchKey answer moves on to the next location
 	la := kvs.fn("loadRootFromAny")
 	f["loadAnySkipCond"] = leanStr("unknown")
@@ -477,11 +484,24 @@ func genFacts() {
 	dh := kvs.fn("DeleteHistoricVersions")
 	var dord []string
 	for _, st := range dh.Body.List {
-		if r, ok := st.(*ast.RangeStmt); ok {
-			dord = append(dord, kvs.text(r.X))
+		if r, ok := st.(*ast.RangeStmt); ok && strings.Contains(kvs.text(r.Body), "DeleteObjectWithContext") {
+			// which list the loop walks and under which prefix it deletes
+			key := "?"
+			ast.Inspect(r.Body, func(x ast.Node) bool {
+				if kv, ok := x.(*ast.KeyValueExpr); ok && kvs.text(kv.Key) == "Key" {
+					key = kvs.text(kv.Value)
+				}
+				return true
+			})
+			dord = append(dord, kvs.text(r.X)+" "+key)
 		}
 	}
 	f["deleteOrder"] = leanStrList(dord)
+	dht := kvs.text(dh.Body)
+	f["vacuumFinishesRetire"] = leanBool(len(dord) > 0 && dord[0] == "current aws.String(s.root.Prefix + l)" &&
+		strings.Contains(dht, "current, err := s.listRoots(ctx) if err != nil { return fmt.Errorf(\"list roots: %w\", err) }") &&
+		strings.Contains(dht, "for _, l := range roots { historic[l] = true }") &&
+		strings.Contains(dht, "for _, l := range current { if !historic[l] { continue }"))
 
 	// ---- scan (C06)
 	fil := vc.fn("Cursor.Filter")
